@@ -32,13 +32,13 @@ func (o akeOutcome) String() string {
 }
 
 type akeSkeleton struct {
-	a        *An
-	kinds    map[string]string // constant value -> kind name
-	dispatch map[string]string // kind -> handler method name
-	cells    map[string][]akeOutcome // "state|kind" -> outcomes
-	states   []string
+	a                     *An
+	kinds                 map[string]string       // constant value -> kind name
+	dispatch              map[string]string       // kind -> handler method name
+	cells                 map[string][]akeOutcome // "state|kind" -> outcomes
+	states                []string
 	queryState, queryEmit string
-	problems []string
+	problems              []string
 }
 
 func (a *An) extractAKE() *akeSkeleton {
@@ -259,10 +259,10 @@ type party struct {
 }
 
 type config struct {
-	a, b     party
-	ab, ba   string // queues as comma-joined kinds
-	aHigher  bool
-	steps    int
+	a, b    party
+	ab, ba  string // queues as comma-joined kinds
+	aHigher bool
+	steps   int
 }
 
 func (c config) key() string {
@@ -465,8 +465,8 @@ func (a *An) c07Skeleton() {
 	// exploration
 	none := "authStateNone"
 	type startP struct {
-		name   string
-		c      config
+		name    string
+		c       config
 		needFin bool
 	}
 	var starts []startP
